@@ -284,7 +284,8 @@ Definition split_post (k L H : Z) (vrs : list vrange) : Prop :=
   Forall (vr_in k L H) vrs /\
   (forall x, L <= x <= H -> exists v, In v vrs /\ vr_lo v <= x <= vr_hi v) /\
   ForallOrdPairs vr_disj vrs /\
-  sum_count vrs <= 30 * (15 - k) + 16 /\
+  sum_count vrs <= 14 + (if L =? min_int64 then 1 else 15 * (15 - k))
+                      + (if H =? max_int64 then 1 else 15 * (15 - k)) /\
   Z.of_nat (length vrs) <= 2 * (15 - k) + 1 /\
   (exists init last, vrs = init ++ [last] /\ Forall (fun v => vr_count v <= 15) init).
 
@@ -302,13 +303,16 @@ Definition partial (k lo hi : Z) (l : list vrange) : Prop :=
 
 Lemma split_post_single k L H v :
   0 <= k <= 15 -> vr_wf v -> vr_shift v = 4 * k -> vr_lo v = L -> vr_hi v = H ->
-  vr_count v <= 30 -> (k = 15 -> vr_count v <= 16) -> split_post k L H [v].
+  vr_count v <= 30 ->
+  vr_count v <= 14 + (if L =? min_int64 then 1 else 15 * (15 - k))
+                   + (if H =? max_int64 then 1 else 15 * (15 - k)) ->
+  split_post k L H [v].
 Proof.
   intros Hk Hwf Hs Hlo Hhi Hc Hc15. unfold split_post. repeat split.
   - constructor; [|constructor]. repeat split; try lia; try apply Hwf. exists k; lia.
   - intros x Hx. exists v. split; [left; reflexivity|lia].
   - constructor; constructor.
-  - cbn [sum_count fold_right]. destruct (Z.eq_dec k 15); [specialize (Hc15 e)|]; lia.
+  - cbn [sum_count fold_right]. lia.
   - cbn [length]. lia.
   - exists [], v. split; [reflexivity|constructor].
 Qed.
@@ -322,10 +326,11 @@ Qed.
 Lemma split_post_combine k L H L' H' l u rest :
   0 <= k < 15 -> L <= L' -> L' <= H' -> H' <= H ->
   partial k L (L' - 1) l -> partial k (H' + 1) H u ->
+  (L = min_int64 -> l = []) -> (H = max_int64 -> u = []) ->
   split_post (k + 1) L' H' rest ->
   split_post k L H (l ++ u ++ rest).
 Proof.
-  intros Hk HLL HLH HHH Hl Hu (Hall & Hcov & Hdis & Hsum & Hlen & (init & last & Hinit & Hinit15)).
+  intros Hk HLL HLH HHH Hl Hu HLmin HHmax (Hall & Hcov & Hdis & Hsum & Hlen & (init & last & Hinit & Hinit15)).
   assert (Hlast : exists init' last', l ++ u ++ rest = init' ++ [last'] /\
                                       Forall (fun v => vr_count v <= 15) init').
   { exists (l ++ u ++ init), last. split.
@@ -338,11 +343,18 @@ Proof.
   assert (Hbnd : forall w, In w rest -> L' <= vr_lo w /\ vr_hi w <= H').
   { intros w Hw. rewrite Forall_forall in Hall. destruct (Hall w Hw) as (_ & _ & ? & ? & _). lia. }
   unfold split_post.
+  assert (HLne : l <> [] -> L <> min_int64) by (intros Hne E; apply Hne, HLmin, E).
+  assert (HHne : u <> [] -> H <> max_int64) by (intros Hne E; apply Hne, HHmax, E).
+  clear HLmin HHmax.
   destruct Hl as [[-> HeL]|(vl & -> & Hwl & Hsl & Hlol & Hhil & Hcl)];
-  destruct Hu as [[-> HeU]|(vu & -> & Hwu & Hsu & Hlou & Hhiu & Hcu)]; cbn [app] in Hlast |- *.
+  destruct Hu as [[-> HeU]|(vu & -> & Hwu & Hsu & Hlou & Hhiu & Hcu)]; cbn [app] in Hlast |- *;
+  try (specialize (HLne ltac:(discriminate)); pose proof Hwl as (_ & _ & _ & Hminl & Hlhl & Hmaxl));
+  try (specialize (HHne ltac:(discriminate)); pose proof Hwu as (_ & _ & _ & Hminu & Hlhu & Hmaxu)).
   - (* no partial ranges *)
     repeat split; try assumption; try lia.
-    intros x Hx. apply Hcov. lia.
+    + intros x Hx. apply Hcov. lia.
+    + destruct (L =? min_int64) eqn:?; destruct (H =? max_int64) eqn:?;
+      destruct (L' =? min_int64) eqn:?; destruct (H' =? max_int64) eqn:?; lia.
   - assert (Hvu : vr_in k L H vu).
     { repeat split; try lia; try apply Hwu. exists k; lia. }
     repeat split.
@@ -351,7 +363,9 @@ Proof.
       * destruct (Hcov x ltac:(lia)) as (v & Hv & Hxv). exists v. split; [right; exact Hv|exact Hxv].
       * exists vu. split; [left; reflexivity|lia].
     + constructor; [|exact Hdis]. apply Forall_forall. intros w Hw. destruct (Hbnd w Hw). right. lia.
-    + cbn [sum_count fold_right]. fold (sum_count rest). lia.
+    + cbn [sum_count fold_right]. fold (sum_count rest).
+      destruct (L =? min_int64) eqn:?; destruct (H =? max_int64) eqn:?;
+      destruct (L' =? min_int64) eqn:?; destruct (H' =? max_int64) eqn:?; lia.
     + cbn [length]. lia.
     + exact Hlast.
   - assert (Hvl : vr_in k L H vl).
@@ -362,7 +376,9 @@ Proof.
       * exists vl. split; [left; reflexivity|lia].
       * destruct (Hcov x ltac:(lia)) as (v & Hv & Hxv). exists v. split; [right; exact Hv|exact Hxv].
     + constructor; [|exact Hdis]. apply Forall_forall. intros w Hw. destruct (Hbnd w Hw). left. lia.
-    + cbn [sum_count fold_right]. fold (sum_count rest). lia.
+    + cbn [sum_count fold_right]. fold (sum_count rest).
+      destruct (L =? min_int64) eqn:?; destruct (H =? max_int64) eqn:?;
+      destruct (L' =? min_int64) eqn:?; destruct (H' =? max_int64) eqn:?; lia.
     + cbn [length]. lia.
     + exact Hlast.
   - assert (Hvl : vr_in k L H vl).
@@ -379,7 +395,9 @@ Proof.
     + constructor.
       * constructor; [left; lia|]. apply Forall_forall. intros w Hw. destruct (Hbnd w Hw). left. lia.
       * constructor; [|exact Hdis]. apply Forall_forall. intros w Hw. destruct (Hbnd w Hw). right. lia.
-    + cbn [sum_count fold_right]. fold (sum_count rest). lia.
+    + cbn [sum_count fold_right]. fold (sum_count rest).
+      destruct (L =? min_int64) eqn:?; destruct (H =? max_int64) eqn:?;
+      destruct (L' =? min_int64) eqn:?; destruct (H' =? max_int64) eqn:?; lia.
     + cbn [length]. lia.
     + exact Hlast.
 Qed.
@@ -402,7 +420,9 @@ Proof.
     destruct (mkv_wf 60 a b ltac:(lia) Ha Hab Hb) as [Hwf Hc].
     apply split_post_single; try reflexivity; try assumption; try lia.
     + fold (mkv 60 (a * 2^60) (b * 2^60 + 2^60 - 1)). rewrite Hc. change (2^3) with 8 in *. lia.
-    + intros _. fold (mkv 60 (a * 2^60) (b * 2^60 + 2^60 - 1)). rewrite Hc. change (2^3) with 8 in *. lia.
+    + fold (mkv 60 (a * 2^60) (b * 2^60 + 2^60 - 1)). rewrite Hc. change (2^3) with 8 in *.
+      unfold min_int64, max_int64, two63.
+      destruct (a * 2 ^ 60 =? - 2 ^ 63) eqn:E1; destruct (b * 2 ^ 60 + 2 ^ 60 - 1 =? 2 ^ 63 - 1) eqn:E2; lia.
   - destruct f as [|f]; [lia|].
     assert (Hk14 : 0 <= k <= 14) by lia.
     set (s := 4 * k) in *. assert (Hs : 0 <= s <= 56) by lia.
@@ -425,12 +445,23 @@ Proof.
     assert (Ha'def : a' = if hasL then a / 16 + 1 else a / 16) by reflexivity.
     assert (Hb'def : b' = if hasU then b / 16 - 1 else b / 16) by reflexivity.
     clearbody hasL hasU a' b'.
+    assert (H63 : 16 * T * p = 2 ^ 63) by (rewrite <- (pow63_split s) by lia; rewrite HT; reflexivity).
+    assert (HT8 : 8 <= T).
+    { unfold T. change 8 with (2 ^ 3). apply Z.pow_le_mono_r; lia. }
+    assert (HLm : (a * p =? min_int64) = (a =? - (16 * T))).
+    { unfold min_int64, two63. rewrite <- H63.
+      destruct (a =? - (16 * T)) eqn:E; [apply Z.eqb_eq|apply Z.eqb_neq]; nia. }
+    assert (HHm : (b * p + p - 1 =? max_int64) = (b =? 16 * T - 1)).
+    { unfold max_int64, two63. rewrite <- H63.
+      destruct (b =? 16 * T - 1) eqn:E; [apply Z.eqb_eq|apply Z.eqb_neq]; nia. }
     assert (Ha'1 : a <= 16 * a' <= a + 15) by (rewrite Ha'def, HhasL; destruct (a mod 16 =? 0) eqn:E; cbn [negb]; lia).
     assert (Hb'1 : b - 15 <= 16 * b' + 15 <= b) by (rewrite Hb'def, HhasU; destruct (b mod 16 =? 15) eqn:E; cbn [negb]; lia).
     destruct ((b' <? a') || (T <=? a') || (b' <? - T)) eqn:Hstop.
     + eexists; split; [reflexivity|].
       destruct (mkv_wf s a b ltac:(lia) ltac:(lia) Hab ltac:(lia)) as [Hwf Hc]. fold p in Hwf, Hc.
       apply split_post_single; try reflexivity; try assumption; try lia.
+      rewrite Hc, HLm, HHm.
+      destruct (a =? - (16 * T)) eqn:E1; destruct (b =? 16 * T - 1) eqn:E2; lia.
     + assert (Hcont : a' <= b' /\ a' < T /\ - T <= b') by lia. clear Hstop.
       assert (IH1 : - 2 ^ (63 - 4 * (k + 1)) <= a') by (rewrite <- HT'; lia).
       assert (IH2 : b' < 2 ^ (63 - 4 * (k + 1))) by (rewrite <- HT'; lia).
@@ -443,7 +474,15 @@ Proof.
       assert (G1 : a * p <= a' * (16 * p)) by nia.
       assert (G2 : a' * (16 * p) <= b' * (16 * p) + 16 * p - 1) by nia.
       assert (G3 : b' * (16 * p) + 16 * p - 1 <= b * p + p - 1) by nia.
-      apply (split_post_combine k _ _ (a' * (16 * p)) (b' * (16 * p) + 16 * p - 1)); [lia|exact G1|exact G2|exact G3| | |exact Hpost].
+      apply (split_post_combine k _ _ (a' * (16 * p)) (b' * (16 * p) + 16 * p - 1)); [lia|exact G1|exact G2|exact G3| | | | |exact Hpost].
+      3:{ intros E. apply Z.eqb_eq in E. rewrite HLm in E.
+          assert (Hm : a mod 16 = 0).
+          { replace a with ((- T) * 16) by lia. apply Z_mod_mult. }
+          rewrite HhasL, Hm. reflexivity. }
+      3:{ intros E. apply Z.eqb_eq in E. rewrite HHm in E.
+          assert (Hm : b mod 16 = 15).
+          { symmetry. apply Z.mod_unique with (q := T - 1); lia. }
+          rewrite HhasU, Hm. reflexivity. }
       * rewrite HhasL in Ha'def |- *. destruct (a mod 16 =? 0) eqn:E; cbn [negb] in Ha'def |- *.
         -- left. split; [reflexivity|]. nia.
         -- right. eexists; split; [reflexivity|].
@@ -584,14 +623,16 @@ Theorem range_span lo hi vrs : in_int64 lo = true -> in_int64 hi = true -> lo <=
   split_range lo hi 4 = Some vrs ->
   exists init last, vrs = init ++ [last] /\
     Forall (fun v => vr_count v <= 15) init /\ vr_count last <= 30 /\
-    sum_count vrs <= 466 /\ (length vrs <= 31)%nat.
+    sum_count vrs <= 464 /\ (length vrs <= 31)%nat.
 Proof.
   intros H1 H2 Hle Hs.
   destruct (split_range_cases lo hi vrs H1 H2 Hs) as [[Hlt ->]|[_ Hp]]; [lia|].
   destruct Hp as (Hall & _ & _ & Hsum & Hlen & (init & last & -> & H15)).
-  exists init, last. repeat split; try assumption; try lia.
-  rewrite Forall_forall in Hall. destruct (Hall last) as (_ & _ & _ & _ & Hc); [|exact Hc].
-  apply in_or_app. right. left. reflexivity.
+  exists init, last. split; [reflexivity|]. split; [exact H15|]. split; [|split].
+  - rewrite Forall_forall in Hall. destruct (Hall last) as (_ & _ & _ & _ & Hc); [|exact Hc].
+    apply in_or_app. right. left. reflexivity.
+  - destruct (lo =? min_int64), (hi =? max_int64); lia.
+  - lia.
 Qed.
 
 Example split_example :
